@@ -91,7 +91,7 @@ def run(ck):
                'iteration performed or stop at iteration 0')
     ck.check_props(required=['C03_residual_is_defect', 'C03_done_sound', 'C03_iter_le_maxiter', 'C03_sweep_guard_vacuous_refuted'])
     from pySDC.helpers.stats_helper import get_sorted
-    nruns = 1200 if thorough else 240
+    nruns = 6000 if thorough else 240
     blocks = []     # (desc, maxiter, atd, nprocs, rounds(list of list of bool), observed finishing iters)
     n_events = 0
     hist = {}
